@@ -843,6 +843,11 @@ fn adapter_fact_checks(l: &[char]) -> Vec<(&'static str, bool)> {
     // NvNoTrunc: normalize_validate(l) is never a proper prefix of l
     let n = nv(l);
     out.push(("nvnotrunc", !(n.len() < l.len() && l[..n.len()] == n[..])));
+    // AdapterNP (Proofs/C04_Uts46_Inner.v): neither normalizer ever returns U+200F (chars are below 2^32 by type)
+    {
+        let m0 = mn(l);
+        out.push(("adapternp", !n.contains(&'\u{200F}') && !m0.contains(&'\u{200F}')));
+    }
     // H1 (ok_ascii): on ASCII text map_normalize is ASCII lower-casing
     if l.iter().all(|c| c.is_ascii()) {
         let low: Vec<char> = l.iter().map(|c| c.to_ascii_lowercase()).collect();
@@ -871,6 +876,14 @@ fn adapter_fact_checks(l: &[char]) -> Vec<(&'static str, bool)> {
 }
 fn adapter_facts(rep: &mut Report, rng: &mut Rng, thorough: bool, sources: &[String]) {
     let mut texts: Vec<Vec<char>> = vec![vec![]];
+    // U+200F (RLM) and its neighbours in several contexts (AdapterNP)
+    for c in ['\u{200E}', '\u{200F}', '\u{200C}', '\u{200D}', '\u{61C}'] {
+        texts.push(vec![c]);
+        texts.push(vec!['a', c]);
+        texts.push(vec![c, 'a']);
+        texts.push(vec!['\u{5D0}', c, '\u{5D0}']);
+        texts.push(vec![c, c]);
+    }
     let add_name = |texts: &mut Vec<Vec<char>>, bytes: &[u8]| {
         let s = String::from_utf8_lossy(bytes).into_owned();
         let cs: Vec<char> = s.chars().collect();
@@ -913,7 +926,7 @@ fn adapter_facts(rep: &mut Report, rng: &mut Rng, thorough: bool, sources: &[Str
         }
     }
     rep.notes.push(format!(
-        "adapter premises sampled on the real idna_adapter: {} texts, {} fact instances (nvnotrunc, ok_ascii, ok_case, ok_stable, ok_mn_idem, ok_fffd, ok_nv_idem; H0 = the empty text is among them)",
+        "adapter premises sampled on the real idna_adapter: {} texts, {} fact instances (nvnotrunc, adapternp, ok_ascii, ok_case, ok_stable, ok_mn_idem, ok_fffd, ok_nv_idem; H0 = the empty text is among them)",
         texts.len(),
         n
     ));
